@@ -217,7 +217,8 @@ class SgzReader(object):
         # Placeholder. Don't read these if you're not going to use them
         self.variant_headers = {}
         self.include_padding = None
-        
+        self._tracefield_arrays = {}
+
         self.range_error = "Index {} is out of range [{}, {}]. Try using slice ordinals instead of numbers?"
 
         # Split out responsibility for I/O and decompression
@@ -866,6 +867,7 @@ class SgzReader(object):
 
     def clear_variant_headers(self):
         self.variant_headers.clear()
+        self._tracefield_arrays.clear()
         self.include_padding = None
 
     def read_variant_headers(self, include_padding=False, tracefields=None):
@@ -922,8 +924,16 @@ class SgzReader(object):
         -------
         header_array : numpy.ndarray of int32, shape (tracecount)
         """
-        self.read_variant_headers(include_padding=True, tracefields=[segyio.tracefield.TraceField(tracefield)])
-        return self.variant_headers[tracefield]
+        # Deliberately independent of read_variant_headers(): that function keeps (and asserts on) one
+        # include_padding mode per reader, which must not make this result depend on earlier calls
+        tracefield = segyio.tracefield.TraceField(tracefield)
+        if tracefield not in self._tracefield_arrays:
+            offset = self.segy_traceheader_template[tracefield]
+            if not isinstance(offset, FileOffset):
+                raise KeyError(tracefield)
+            buffer = self.file.read_range(self.file, offset, self.header_entry_length_bytes)
+            self._tracefield_arrays[tracefield] = np.frombuffer(buffer, dtype=np.int32)
+        return self._tracefield_arrays[tracefield]
 
     def get_tracefield_values(self, tracefield):
         """Efficiently provides all trace header values for a given trace header field
